@@ -142,18 +142,30 @@ def run_shard(spec):
     rng = random.Random("C19:%s:%s" % (spec["seed"], spec["shard"]))
     counters, digests, samples, violations = {}, set(), [], []
     get = spec.get("get", "item")
-    mgr = xdeps.Manager()
-    variables = {v: 1.0 for v in VARS}
-    variables.update({"a": 2.0, "b.c": -4.0, "k%1": 3.0, "x_1": 0.5, ".p": 0.0, "on_x1": 1.0, "lrg": 700.0})
-    if get == "attr":
-        elements = {"el": Elem(a=1.5, b=2.5), "q.1": Elem(k1=-0.25, l=0.0)}
-    else:
-        elements = {"el": {"a": 1.5, "b": 2.5}, "q.1": {"k1": -0.25, "l": 0.0}}
-    vref = mgr.ref(variables, "v")
-    eref = mgr.ref(elements, "e")
-    fref = mgr.ref(math, "f")
-    madexpr = MadxEval(vref, fref, eref, get=get).eval
-    madeval = MadxEval(variables, math, elements, get=get).eval
+    mgr = variables = elements = vref = eref = madexpr = madeval = None
+
+    def new_env(first=False):
+        """A fresh, independent environment (manager, containers, parsers) with the SAME container labels as
+        every earlier one; earlier environments stay alive (several sequences in one process)."""
+        nonlocal mgr, variables, elements, vref, eref, madexpr, madeval
+        mgr = xdeps.Manager()
+        variables = {v: (1.0 if first else rng.choice(VALUES)) for v in VARS}
+        if first:
+            variables.update({"a": 2.0, "b.c": -4.0, "k%1": 3.0, "x_1": 0.5, ".p": 0.0, "on_x1": 1.0, "lrg": 700.0})
+        ev = (lambda x: x) if first else (lambda x: rng.choice(VALUES))
+        if get == "attr":
+            elements = {"el": Elem(a=ev(1.5), b=ev(2.5)), "q.1": Elem(k1=ev(-0.25), l=ev(0.0))}
+        else:
+            elements = {"el": {"a": ev(1.5), "b": ev(2.5)}, "q.1": {"k1": ev(-0.25), "l": ev(0.0)}}
+        vref = mgr.ref(variables, "v")
+        eref = mgr.ref(elements, "e")
+        fref = mgr.ref(math, "f")
+        madexpr = MadxEval(vref, fref, eref, get=get).eval
+        madeval = MadxEval(variables, math, elements, get=get).eval
+        ENVS.append((mgr, variables, elements))
+        counters["environments"] = counters.get("environments", 0) + 1
+    ENVS = []
+    new_env(first=True)
 
     def elem_value(e, a):
         return getattr(elements[e], a) if get == "attr" else elements[e][a]
@@ -202,6 +214,8 @@ def run_shard(spec):
 
     n = spec["strings"] if not spec.get("replay") else 400
     for i in range(n):
+        if i and i % 150 == 0:
+            new_env()
         paren = rng.random() < 0.5
         ws = rng.random() < 0.5
         s, m = gen(rng, rng.randint(1, 6), paren, ws)
